@@ -5,3 +5,8 @@
 
 // owner: group a5. `super::super` is the repository module `packet`.
 use super::super::*;
+
+/// The NTPv5 draft identification string the server insists on (`pub(crate)` constant).
+pub fn draft_version() -> &'static str {
+    v5::DRAFT_VERSION
+}
